@@ -28,6 +28,9 @@ Cases ==
     \* sections open at the leading edge
     {[m |-> "airfoil", op |-> "config", chord |-> c, camber |-> h, thick |-> 6, le |-> l, te |-> t,
       orient |-> "dir", face |-> "upper", nside |-> 200, open |-> TRUE, front |-> TRUE] : c \in Chords, h \in Cambers, t \in {"fit", "intersect"}, l \in OpenM} \cup
+    \* DirectionFwd with a requested direction 79 degrees off the chord (to either side) on the most cambered sections
+    {[m |-> "airfoil", op |-> "config", chord |-> c, camber |-> 8, thick |-> 6, le |-> "intersect", te |-> "fit",
+      orient |-> "dir", face |-> "upper", nside |-> 200, open |-> FALSE, od |-> k] : c \in Chords, k \in {1, 2}} \cup
     {[m |-> "airfoil", op |-> "livelock"]}
 Init == case \in Cases
 Next == UNCHANGED case
